@@ -41,7 +41,17 @@ fn bus_verdict<S: Setup>(prog: &Prog, p: &Pipeline<S>, cfg: &PackCfg) -> Result<
             continue;
         }
         let class = p3r_verif::bus::anomaly_class(&built.circuit, a.slot);
-        let sig = if class == "other" { format!("bus/other/{}", a.pattern) } else { format!("bus/{class}") };
+        // the coarse root-cause classes are refined by the shape of the imbalance (number of creator
+        // rows, sign of the net multiplicity) so that a different failure on the same kind of slot
+        // is not absorbed by a known finding
+        let shape = a.pattern.splitn(2, "/creators=").nth(1).map(|r| format!("creators={r}")).unwrap_or_default();
+        let sig = if class == "other" {
+            format!("bus/other/{}", a.pattern)
+        } else if class.starts_with("first-use-creator") {
+            format!("bus/{class}")
+        } else {
+            format!("bus/{class}/{shape}")
+        };
         out.push((
             sig,
             json!({"slot": a.slot, "pattern": a.pattern, "creators": a.summary.creators, "creator_mult": a.summary.creator_mult,
@@ -205,6 +215,27 @@ fn first_time(sig: &str) -> bool {
     SEEN.lock().unwrap().insert(sig.to_string())
 }
 
+/// Directed stream (see `pgen::first_use_programs`): every way a private input can make its first
+/// appearance in an ALU row, under two packings and three field setups.
+const DIRECTED_SETUPS: [&str; 3] = ["babybear-d1", "koalabear-d4", "koalabear-d5-quintic"];
+
+fn n_directed() -> usize {
+    p3r_verif::pgen::first_use_programs::<p3r_verif::fields::BbD1>().len() * 2 * DIRECTED_SETUPS.len()
+}
+
+fn directed<S: Setup>(idx: usize) -> Vec<CaseResult> {
+    let progs = p3r_verif::pgen::first_use_programs::<S>();
+    let k = idx / DIRECTED_SETUPS.len();
+    let (name, prog, pu, pr) = &progs[k % progs.len()];
+    let cfg = if (k / progs.len()) % 2 == 0 { PackCfg::default_cfg() } else { PackCfg { alu_lanes: 3, public_lanes: 2, ..PackCfg::default_cfg() } };
+    let key = format!("directed:{}:{name}:{}", S::NAME, cfg.key());
+    let mut rs = one::<S>(prog, pu, pr, &cfg, key, false, idx < 6, "directed");
+    for r in rs.iter_mut() {
+        *r = std::mem::replace(r, CaseResult::held("", false)).count(format!("directed/{}", name.split(":reads").next().unwrap_or(name)), 1);
+    }
+    rs
+}
+
 fn case<S: Setup>(seed: u64, idx: usize, tier: Tier) -> Vec<CaseResult> {
     let mut rng = case_rng(seed, "c09", idx as u64);
     let size = rng.random_range(1..tier.pick(30usize, 50usize));
@@ -250,7 +281,15 @@ fn main() {
     }
     let n = args.tier.pick(6000usize, 250_000usize);
     let (seed, tier) = (args.seed, args.tier);
-    let rs = run_cases_isolated(n, args.threads, |i| with_setup!(SETUP_NAMES[i % SETUP_NAMES.len()], case, seed, i, tier));
+    let nd = n_directed();
+    let rs = run_cases_isolated(n + nd, args.threads, |i| {
+        if i < nd {
+            with_setup!(DIRECTED_SETUPS[i % DIRECTED_SETUPS.len()], directed, i)
+        } else {
+            let i = i - nd;
+            with_setup!(SETUP_NAMES[i % SETUP_NAMES.len()], case, seed, i, tier)
+        }
+    });
     rep.add_all(rs);
     rep.finish(args.tier.pick(1000, 30_000));
 }
